@@ -1,4 +1,5 @@
 from dataclasses import dataclass
+from itertools import chain
 from typing import Any, Dict, List, Literal, Optional, Tuple, Union
 
 import numpy as np
@@ -323,9 +324,11 @@ class EvolvableCNN(EvolvableModule):
         :return: Shrunk new neural network with copied parameters
         :rtype: nn.Module
         """
+        # Buffers (e.g. BatchNorm running statistics) are learned state as well
         old_net_dict = dict(old_net.named_parameters())
+        old_net_dict.update(old_net.named_buffers())
 
-        for key, param in new_net.named_parameters():
+        for key, param in chain(new_net.named_parameters(), new_net.named_buffers()):
             if key in old_net_dict.keys():
                 old_param = old_net_dict[key]
                 old_size = old_param.data.size()
